@@ -254,6 +254,49 @@ def synth(rng, kind):
     return h + '\n' + d + '\n' + '\n'.join(rows) + '\n#\n# Program:         cmscan\n'
 
 
+BLAST_OPT = ['qseqid', 'sseqid', 'pident', 'length', 'mismatch', 'gapopen', 'evalue', 'bitscore', 'sstrand', 'qlen', 'slen', 'nident', 'qcovs']
+MMSEQS_OPT = ['query', 'target', 'fident', 'pident', 'alnlen', 'mismatch', 'gapopen', 'evalue', 'bits', 'qlen', 'tlen', 'nident', 'qcov']
+
+
+def synth_sub(rng, tool=None, drop_coord=None, bad_strand=None):
+    """BLAST outfmt 6/10 / MMseqs2 fmtmode 0 rows for a user-chosen column selection; returns
+    {content, tool, sep, outfmt, ok}: ok = the selection holds the four coordinates and the rows are consistent, so that a reader
+    given sep and outfmt must recognise the table."""
+    tool = tool or rng.choice(['blast', 'blast', 'mmseqs'])
+    coords = ['qstart', 'qend', 'sstart', 'send'] if tool == 'blast' else ['qstart', 'qend', 'tstart', 'tend']
+    opt = BLAST_OPT if tool == 'blast' else MMSEQS_OPT
+    cols = list(coords)
+    drop_coord = rng.random() < 0.12 if drop_coord is None else drop_coord
+    if drop_coord:
+        cols.remove(rng.choice(cols))
+    cols += rng.sample(opt, rng.choice([0, 1, 2, 4, 6, len(opt)]))
+    if rng.random() < 0.7:
+        rng.shuffle(cols)
+    sep = rng.choice(['\t', '\t', ','])
+    bad_strand = rng.random() < 0.1 if bad_strand is None else bad_strand
+    rows = []
+    for i in range(rng.choice([1, 2, 5])):
+        qa = rng.randrange(1, 500)
+        qb = qa + rng.randrange(1, 300)
+        sa = rng.randrange(1, 10 ** rng.choice([3, 6, 8]))
+        sb = sa + rng.randrange(1, 300)
+        minus = rng.random() < 0.4
+        if minus:
+            sa, sb = sb, sa
+        strand = ('minus' if minus else 'plus')
+        if bad_strand and i == 0:
+            strand = ('plus' if minus else 'minus')
+        ident = rng.choice([100.0, 95.408, 50.5, 1.5, 0.5])
+        v = {'qstart': qa, 'qend': qb, 'sstart': sa, 'send': sb, 'tstart': sa, 'tend': sb, 'qseqid': 'q%d' % i, 'sseqid': 'chr2', 'query': 'q%d' % i,
+             'target': 'chr2', 'pident': '%.3f' % ident, 'fident': '%.3f' % (ident / 100), 'length': qb - qa + 1, 'alnlen': qb - qa + 1,
+             'mismatch': rng.randrange(9), 'gapopen': rng.randrange(3), 'evalue': rng.choice(['0.0', '3.03e-83', '2.5']),
+             'bitscore': rng.choice(['2734', '93.5']), 'bits': rng.choice(['2734', '93']), 'sstrand': strand, 'qlen': 1480, 'slen': 10 ** 8,
+             'tlen': 10 ** 8, 'nident': qb - qa, 'qcovs': '97', 'qcov': '0.970'}
+        rows.append(sep.join(str(v[c]) for c in cols))
+    ok = not drop_coord and not (bad_strand and 'sstrand' in cols)
+    return {'content': '\n'.join(rows) + '\n', 'tool': tool, 'sep': sep, 'outfmt': ' '.join(cols), 'ok': ok}
+
+
 SYNTH = ['genbank', 'blast6', 'blast7', 'blast10', 'blast6low', 'mmseqs0', 'mmseqs4', 'infernal1', 'infernal2', 'infernal3']
 SYNTH_FMT = {'genbank': 'genbank', 'blast6': 'blast', 'blast7': 'blast', 'blast10': 'blast', 'blast6low': None, 'mmseqs0': 'mmseqs',
              'mmseqs4': 'mmseqs', 'infernal1': 'infernal', 'infernal2': 'infernal', 'infernal3': 'infernal'}
@@ -564,6 +607,10 @@ def r_history(rng):
             w.pop('kw', None)
             c = write_content(w)
             readable[len(texts)] = {'what': w['what'], 'rkw': {}, 'w': w}
+        elif rng.random() < 0.3:
+            t = synth_sub(rng, drop_coord=False, bad_strand=False)
+            c = t['content']
+            readable[len(texts)] = {'what': 'fts', 'rkw': {'sep': t['sep'], 'outfmt': t['outfmt']}}
         else:
             kind = rng.choice([k for k in SYNTH if k != 'blast6low'])
             c = synth(rng, kind)
@@ -579,6 +626,8 @@ def r_history(rng):
         hi = rng.randrange(len(handles))
         if k < 0.45:
             o = rng.choice(optsets)
+            if readable.get(cur[hi], {}).get('rkw', {}).get('outfmt') and rng.random() < 0.6:
+                o = readable[cur[hi]]['rkw']
             st = dict({'op': 'detect', 'h': hi, 'what': rng.choice(['seqs', 'fts', 'fts']), 'sep': None, 'outfmt': None,
                        'offset': rng.choice([0, 0, 0, min(3, len(texts[cur[hi]]))])}, **o)
             steps.append(st)
@@ -693,6 +742,18 @@ def gen_cases(rng, tier):
             cases.append(detect_case(rng, mutate(rng, content), 'fts', opts=opts if rng.random() < 0.5 else {}))
         if kind == 'blast10' and rng.random() < 0.3:
             cases.append(detect_case(rng, content, 'fts'))            # without sep: nothing accepts it
+    # --- sniffers called WITH reader options: column selections given by outfmt= (with and without identity / e-value columns)
+    for _ in range(2000 if thorough else 260):
+        t = synth_sub(rng)
+        o = {'sep': t['sep'] if (t['sep'] == ',' or rng.random() < 0.5) else None, 'outfmt': t['outfmt']}
+        cases.append(detect_case(rng, t['content'], 'fts', origin='', expect=t['tool'] if t['ok'] else None, opts=o))
+        r = rng.random()
+        if r < 0.15:      # the other tool's vocabulary / a mutated table / no outfmt
+            cases.append(detect_case(rng, mutate(rng, t['content']), 'fts', opts=o))
+        elif r < 0.3:
+            cases.append(detect_case(rng, t['content'], 'fts', opts={'sep': o['sep']}))
+        elif r < 0.4:
+            cases.append(detect_case(rng, t['content'], 'fts', opts=dict(o, outfmt=' '.join(t['outfmt'].split()[:-1]))))
     # --- adversarial
     na = 9000 if thorough else 900
     for _ in range(na):
@@ -1535,12 +1596,18 @@ def extra_checks(rng, tier, cov):
             content = write_content(w)
             what, fmt = w['what'], w['fmt']
             case = {'kind': 'transport', 'w': w}
+        elif rng2.random() < 0.35:
+            t = synth_sub(rng2, drop_coord=False, bad_strand=False)
+            content, what, fmt, w, kind = t['content'], 'fts', t['tool'], None, 'subset'
+            case = {'kind': 'transport', 'synthetic': 'column subset', 'content': content, 'what': what, 'sep': t['sep'], 'outfmt': t['outfmt']}
         else:
             kind = rng2.choice([k for k in SYNTH if k != 'blast6low'])
             content = synth(rng2, kind)
             what, fmt, w = ('seqs' if kind == 'genbank' and rng2.random() < 0.5 else 'fts'), SYNTH_FMT[kind], None
             case = {'kind': 'transport', 'synthetic': kind, 'content': content, 'what': what}
         rkw = {'sep': ','} if w is None and kind == 'blast10' else {}
+        if w is None and kind == 'subset':
+            rkw = {'sep': t['sep'], 'outfmt': t['outfmt']}
         d = tempfile.mkdtemp(prefix='C03-tr-', dir='/tmp')
         try:
             ref = None
